@@ -721,7 +721,7 @@ t0n_exit:
 
 # ====================================================================== effects (CBMC on the E2 functions)
 HARN = os.path.join(ROOT, "harness")
-Effect = namedtuple("Effect", "op name delta need peak rdelta rneed rpeak co proved note codelta noco coerr")
+Effect = namedtuple("Effect", "op name delta need peak rdelta rneed rpeak co proved note codelta noco coerr coerr_nz")
 
 
 def _harness_hash():
@@ -771,7 +771,7 @@ def ensure_pre(prog):
 
 
 def _noeff(op, name, note):
-    return Effect(op, name, None, None, None, None, None, None, None, False, note, None, None, None)
+    return Effect(op, name, None, None, None, None, None, None, None, False, note, None, None, None, None)
 
 
 def _measure(prog, op, wd, lit=None, timeout=300):
@@ -782,7 +782,7 @@ def _measure(prog, op, wd, lit=None, timeout=300):
     if rc != 0:
         return _noeff(op, n.name, "goto-cc failed: " + (o + e)[-800:])
     try:
-        rc, o, e = sh(["cbmc", gb, "--json-ui", "--no-standard-checks", "--no-malloc-may-fail", "--unwind", "34",
+        rc, o, e = sh(["cbmc", gb, "--json-ui", "--no-malloc-may-fail", "--unwind", "34",
                        "--unwinding-assertions", "--drop-unused-functions", "--slice-formula"], timeout=timeout)
     except subprocess.TimeoutExpired:
         return _noeff(op, n.name, "cbmc timeout")
@@ -807,7 +807,7 @@ def _measure(prog, op, wd, lit=None, timeout=300):
     poss = {}
     bad = []
     completed = False
-    co = noco = coerr = None
+    co = noco = coerr = coerr_nz = None
     for r in res:
         d = r.get("description", "")
         st = r.get("status")
@@ -825,10 +825,19 @@ def _measure(prog, op, wd, lit=None, timeout=300):
         if d == "EFF coerr":
             coerr = st == "SUCCESS"      # every yielding path leaves err != 0
             continue
+        if d == "EFF coerr_nz":
+            coerr_nz = st == "SUCCESS"   # ... provided the top-of-stack operand was non-zero
+            continue
         if d == "EFF completed":
             completed = st == "FAILURE"
             continue
-        if st != "SUCCESS":
+        pn = r.get("property", "")
+        if ".no-body." in pn:
+            if st != "SUCCESS":
+                nobody.append(d)
+            continue
+        relevant = ".unwind." in pn or ".assertion." in pn or "function pointer" in d or d.startswith("EFF")
+        if relevant and st != "SUCCESS":
             bad.append("%s [%s]" % (d, r.get("sourceLocation", {}).get("function", "?")))
     note = []
     if bad:
@@ -854,7 +863,7 @@ def _measure(prog, op, wd, lit=None, timeout=300):
         note.append("return stack effect not constant: %s" % sorted(poss.get("rdelta", [])))
     proved = not bad and not nobody and completed and delta is not None and rdelta is not None and (not co or codelta is not None)
     return Effect(op, n.name, delta, mx("need"), mx("peak"), rdelta, mx("rneed"), mx("rpeak"), co, proved, " | ".join(note),
-                  codelta if co else None, noco, coerr if co else None)
+                  codelta if co else None, noco, coerr if co else None, coerr_nz if co else None)
 
 
 def native_effects(prog, jobs=None, force=False):
@@ -923,6 +932,286 @@ def cli_effects(p, rest):
             (" codelta=%s returns=%s coerr=%s" % (e.codelta, e.noco, e.coerr)) if e.co else "", "PROVED" if e.proved else "NOT-PROVED", e.note[:400]))
         bad += 0 if e.proved else 1
     print("%s: %d natives, %d not proved" % (p.key, len(effs), bad))
+    return 0
+
+
+
+# ====================================================================== E4: stack-effect system (z3)
+def _z3(script, timeout=120):
+    f = tempfile.NamedTemporaryFile("w", suffix=".smt2", dir=BUILD, delete=False)
+    f.write(script)
+    f.close()
+    try:
+        rc, o, e = sh(["z3", "-T:%d" % timeout, f.name], timeout=timeout + 30)
+    finally:
+        os.unlink(f.name)
+    return o
+
+
+def site_effect(prog, effects, waddr, k):
+    """effect of native call site k of word waddr: (Effect, per-literal override or None)"""
+    ins = prog.words[waddr].ins[k]
+    e = effects[ins.arg]
+    if e.proved and e.delta is not None:
+        return e, None
+    m = re.search(r"per-literal: (\{.*\})", e.note or "")
+    if m:
+        tab = json.loads(m.group(1))
+        v = literal_before(prog, waddr, k)
+        if v is not None and str(v) in tab:
+            d, need, peak = tab[str(v)]
+            return e._replace(delta=d, need=need, peak=peak, proved=True), v
+    return e, None
+
+
+def stack_system(prog, effects=None, resume_after_fail=False):
+    """E4.  Builds the linear system D[succ] = D[ip] + effect over the bytecode CFG
+    (per word, composed over calls by summaries N/H/L; return stack likewise) and asks z3
+      (a) is the system satisfiable (stack depth is a function of the instruction)?
+      (b) system AND (H_main > N_dp OR L_main < 0 OR frame_main + RH_main > N_rp)  -- must be UNSAT
+    resume_after_fail=False: a native path that yields with err != 0 never continues
+    (the push function of the program refuses to resume: checked separately);
+    True: every yield may be resumed (br_pkey/skey/x509_decoder_push do not test err)."""
+    if effects is None:
+        effects = native_effects(prog)
+    res = {"program": prog.key, "file": prog.rel, "ndp": prog.ndp, "nrp": prog.nrp, "resume_after_fail": resume_after_fail,
+           "not_covered": [], "recursion": prog.recursive_words(), "value_dependent_sites": []}
+    if res["recursion"]:
+        res["not_covered"].append("recursive words: %s" % res["recursion"])
+    unproved = [e for e in effects.values() if not e.proved and e.op in prog.used_natives()]
+    reach_words = prog.reachable_words()
+    # --- graph
+    decl = []
+    asr = []
+    terms_H = {}
+    terms_L = {}
+    terms_RH = {}
+    returns = {}
+    order = []
+    # which words can return (fixpoint over reachability with terminal edges removed)
+    def edges(w, can_return):
+        """yields (i, j or None('ret'), eff, low, peak, rpeak) for reachable instructions"""
+        idx = {ins.ip: n for n, ins in enumerate(w.ins)}
+        out = {}
+        for n, ins in enumerate(w.ins):
+            nxt = n + 1 if n + 1 < len(w.ins) else None
+            L = []
+            if ins.kind in ("const", "getl"):
+                L.append((nxt, 1)); low, pk, rpk = 0, 1, 0
+            elif ins.kind == "putl":
+                L.append((nxt, -1)); low, pk, rpk = -1, 0, 0
+            elif ins.kind == "jmp":
+                L.append((idx[ins.arg], 0)); low, pk, rpk = 0, 0, 0
+            elif ins.kind in ("jif", "jifnot"):
+                L.append((idx[ins.arg], -1)); L.append((nxt, -1)); low, pk, rpk = -1, 0, 0
+            elif ins.kind == "ret":
+                L.append(("ret", 0)); low, pk, rpk = 0, 0, 0
+            elif ins.kind == "nat":
+                e, lit = site_effect(prog, effects, w.addr, n)
+                if not e.proved or e.delta is None:
+                    out[n] = None
+                    continue
+                if e.noco is None or e.noco:
+                    L.append((nxt, e.delta))
+                if e.co:
+                    terminal = False
+                    if not resume_after_fail:
+                        if e.coerr:
+                            terminal = True
+                        elif e.coerr_nz:
+                            v = literal_before(prog, w.addr, n)
+                            terminal = v is not None and v != 0
+                    if not terminal:
+                        L.append((nxt, e.codelta))
+                low, pk, rpk = -e.need, e.peak, e.rpeak
+            elif ins.kind == "call":
+                c = prog.words[ins.arg]
+                if can_return.get(ins.arg, False):
+                    L.append((nxt, ("N", ins.arg)))
+                low, pk, rpk = ("L", ins.arg), ("H", ins.arg), ("RH", ins.arg, c.lnum + 1)
+            out[n] = (L, low, pk, rpk)
+        return out
+
+    can_return = {a: False for a in prog.words}
+    changed = True
+    reach = {}
+    while changed:
+        changed = False
+        for a, w in prog.words.items():
+            ed = edges(w, can_return)
+            seen = set()
+            st = [0] if w.ins else []
+            ret = False
+            while st:
+                n = st.pop()
+                if n in seen or n is None:
+                    continue
+                seen.add(n)
+                if ed[n] is None:
+                    continue
+                for (j, eff) in ed[n][0]:
+                    if j == "ret":
+                        ret = True
+                    elif j is not None:
+                        st.append(j)
+                    # falling off the end of a word (j None) cannot happen in well-formed code: checked below
+            reach[a] = seen
+            if ret and not can_return[a]:
+                can_return[a] = True
+                changed = True
+    fall_off = []
+    bad_sites = []
+    lines = ["(set-option :produce-models true)"]
+    allv = []
+
+    def ex(t, a=None):
+        if isinstance(t, tuple):
+            if t[0] == "N":
+                return "N_%d" % t[1]
+            if t[0] == "L":
+                return "L_%d" % t[1]
+            if t[0] == "H":
+                return "H_%d" % t[1]
+            if t[0] == "RH":
+                return "(+ RH_%d %d)" % (t[1], t[2])
+        return str(t) if t >= 0 else "(- %d)" % (-t)
+    for a, w in prog.words.items():
+        if a not in reach_words:
+            continue
+        ed = edges(w, can_return)
+        for v in ("N_%d" % a, "H_%d" % a, "L_%d" % a, "RH_%d" % a):
+            lines.append("(declare-const %s Int)" % v)
+            allv.append(v)
+        for n in sorted(reach[a]):
+            lines.append("(declare-const D_%d_%d Int)" % (a, w.ins[n].ip))
+            allv.append("D_%d_%d" % (a, w.ins[n].ip))
+        if not w.ins:
+            continue
+        lines.append("(assert (= D_%d_%d 0))" % (a, w.ins[0].ip))
+        hs, ls, rhs = [], [], []
+        for n in sorted(reach[a]):
+            d = "D_%d_%d" % (a, w.ins[n].ip)
+            if ed[n] is None:
+                ins = w.ins[n]
+                bad_sites.append("word %d ip %d: native %d (%s) has no proved constant stack effect" % (a, ins.ip, ins.arg, prog.natives[ins.arg].name))
+                continue
+            L, low, pk, rpk = ed[n]
+            for (j, eff) in L:
+                if j == "ret":
+                    lines.append("(assert (= N_%d %s))" % (a, d))
+                elif j is None:
+                    fall_off.append("word %d: control falls off the end after ip %d" % (a, w.ins[n].ip))
+                else:
+                    lines.append("(assert (= D_%d_%d (+ %s %s)))" % (a, w.ins[j].ip, d, ex(eff)))
+            hs.append("(+ %s %s)" % (d, ex(pk)))
+            ls.append("(+ %s %s)" % (d, ex(low)))
+            rhs.append(ex(rpk))
+        for nm, ts, op in (("H_%d" % a, hs, ">="), ("L_%d" % a, ls, "<="), ("RH_%d" % a, rhs, ">=")):
+            ts = ts or ["0"]
+            for t in ts:
+                lines.append("(assert (%s %s %s))" % (op, nm, t))
+            lines.append("(assert (or %s))" % " ".join("(= %s %s)" % (nm, t) for t in ts))
+    res["not_covered"] += fall_off + bad_sites
+    mains = list(prog.main_words.items())
+    viol = []
+    for name, a in mains:
+        fr = prog.words[a].lnum + 1
+        viol.append("(> H_%d %d)" % (a, prog.ndp))
+        viol.append("(< L_%d 0)" % a)
+        viol.append("(> (+ RH_%d %d) %d)" % (a, fr, prog.nrp))
+    lines = [l for l in lines if not l.startswith("(assert")] + [l for l in lines if l.startswith("(assert")]
+    script = "\n".join(lines) + "\n(check-sat)\n(get-value (%s))\n(push)\n(assert (or %s))\n(check-sat)\n(pop)\n" % (
+        " ".join(allv), " ".join(viol))
+    t0 = time.time()
+    out = _z3(script)
+    res["z3_s"] = round(time.time() - t0, 2)
+    res["smt_vars"] = len(allv)
+    res["smt_asserts"] = sum(1 for l in lines if l.startswith("(assert"))
+    toks = out.split()
+    sat1 = toks[0] if toks else "error"
+    res["consistent"] = sat1
+    vals = {}
+    for m in re.finditer(r"\((\w+) (\(- \d+\)|-?\d+)\)", out):
+        v = m.group(2)
+        vals[m.group(1)] = -int(v[3:-1]) if v.startswith("(") else int(v)
+    m2 = re.findall(r"^(sat|unsat|unknown)$", out, re.M)
+    res["violation_query"] = m2[1] if len(m2) > 1 else "error"
+    if sat1 == "sat":
+        for name, a in mains:
+            res["max_data_depth"] = vals.get("H_%d" % a)
+            res["min_data_depth"] = vals.get("L_%d" % a)
+            res["max_return_depth"] = vals.get("RH_%d" % a, 0) + prog.words[a].lnum + 1
+        res["word_summaries"] = {str(a): [vals.get("N_%d" % a), vals.get("H_%d" % a), vals.get("L_%d" % a), vals.get("RH_%d" % a)]
+                                 for a in prog.words if a in reach_words}
+    else:
+        res["conflicts"] = stack_conflicts(prog, effects, resume_after_fail, edges, can_return, reach)[:12]
+    for e in effects.values():
+        if e.note and "not constant" in e.note and e.op in prog.used_natives():
+            sites = []
+            for (wa, k) in prog.call_sites(e.op):
+                sites.append({"word": wa, "ip": prog.words[wa].ins[k].ip, "literal": literal_before(prog, wa, k)})
+            res["value_dependent_sites"].append({"native": e.name, "sites": sites})
+    res["covered"] = (sat1 == "sat" and res["violation_query"] == "unsat" and not res["not_covered"])
+    return res
+
+
+def stack_conflicts(prog, effects, resume_after_fail, edges, can_return, reach):
+    """diagnosis when the equality system is inconsistent: propagate depths word by word
+    (callees first) and list the merge points reached with two different depths"""
+    out = []
+    N = {}
+    done = set()
+
+    def solve(a):
+        if a in done:
+            return
+        done.add(a)
+        w = prog.words[a]
+        for i in w.ins:
+            if i.kind == "call":
+                solve(i.arg)
+        ed = edges(w, can_return)
+        D = {0: 0}
+        st = [0]
+        while st:
+            n = st.pop()
+            if ed.get(n) is None:
+                continue
+            for (j, eff) in ed[n][0]:
+                if isinstance(eff, tuple):
+                    eff = N.get(eff[1])
+                    if eff is None:
+                        continue
+                v = D[n] + eff
+                if j == "ret":
+                    if a in N and N[a] != v:
+                        out.append("word %d: returns with net effect %d and %d" % (a, N[a], v))
+                    N.setdefault(a, v)
+                elif j is not None:
+                    if j in D:
+                        if D[j] != v:
+                            out.append("word %d ip %d: reached with depth %d and %d" % (a, w.ins[j].ip, D[j], v))
+                    else:
+                        D[j] = v
+                        st.append(j)
+    for a in prog.main_words.values():
+        solve(a)
+    return out
+
+
+def cli_stack(p, rest):
+    effs = native_effects(p)
+    for mode in (False, True):
+        r = stack_system(p, effs, resume_after_fail=mode)
+        print("%s resume_after_fail=%s consistent=%s violation_query=%s covered=%s maxD=%s minD=%s maxR=%s (N_dp=%d N_rp=%d) z3=%.2fs vars=%d asserts=%d" % (
+            p.key, mode, r["consistent"], r["violation_query"], r["covered"], r.get("max_data_depth"), r.get("min_data_depth"),
+            r.get("max_return_depth"), p.ndp, p.nrp, r["z3_s"], r["smt_vars"], r["smt_asserts"]))
+        for x in r["not_covered"][:10]:
+            print("   not covered:", x)
+        for x in r.get("conflicts", [])[:10]:
+            print("   conflict:", x)
+        for x in r["value_dependent_sites"]:
+            print("   value-dependent:", x)
     return 0
 
 
